@@ -70,7 +70,10 @@ func validSignalingState(s SignalingState) bool {
 func pcValid(pc *PeerConnection) bool {
 	return pc != nil && pc.isClosed != nil && pc.isNegotiationNeeded != nil &&
 		pc.updateNegotiationNeededFlagOnEmptyChain != nil && pc.ops != nil && pc.api != nil &&
-		pc.api.settingEngine != nil && pc.api.mediaEngine != nil && pc.log != nil && pc.idpLoginURL == nil
+		pc.api.settingEngine != nil && pc.api.mediaEngine != nil && pc.log != nil && pc.idpLoginURL == nil &&
+		pc.ops.ops != nil && pc.isClosed != pc.isNegotiationNeeded &&
+		pc.isClosed != pc.updateNegotiationNeededFlagOnEmptyChain &&
+		pc.isNegotiationNeeded != pc.updateNegotiationNeededFlagOnEmptyChain
 }
 
 // specDescInv is C01's third sentence as an object invariant: no pending
